@@ -380,7 +380,7 @@ func rootLeaves(fn *ssa.Function, recv *ssa.Parameter, v ssa.Value, wantNil bool
 			if x, tnn, ok := ir.NilTest(cond); ok && isLinkLoad(x) {
 				return tnn != wantNil, true
 			}
-			return false, false
+			return rootLinkPredicate(cond, recv, wantNil, depth)
 		},
 		relevant: func(cond ssa.Value) bool { return mentionsValue(cond, isLinkLoad, 0) },
 	}
@@ -420,6 +420,74 @@ func rootLeaves(fn *ssa.Function, recv *ssa.Parameter, v ssa.Value, wantNil bool
 		leaves = append(leaves, rootLeaf{l, isLinkLoad})
 	}
 	return leaves, nil
+}
+
+// rootLinkPredicate: cond is the result of a static in-repo predicate on the
+// same *Root (`r.IsEmpty()`, `hasLink(r)`): a function without stores or calls
+// of its own (other than such predicates) whose every return reachable under
+// the assumption yields the same decided truth value.
+func rootLinkPredicate(cond ssa.Value, recv *ssa.Parameter, wantNil bool, depth int) (bool, bool) {
+	call, ok := cond.(*ssa.Call)
+	if !ok || depth >= 2 || call.Call.IsInvoke() {
+		return false, false
+	}
+	callee := ir.Callee(call.Call)
+	if callee == nil || !fxOwnFunc(callee) || len(callee.FreeVars) != 0 || callee.Signature.Results().Len() != 1 || len(callee.Params) != len(call.Call.Args) {
+		return false, false
+	}
+	if b, isB := callee.Signature.Results().At(0).Type().Underlying().(*types.Basic); !isB || b.Kind() != types.Bool {
+		return false, false
+	}
+	var sub *ssa.Parameter
+	for i, a := range call.Call.Args {
+		if ir.ResolveCell(a) == ssa.Value(recv) {
+			sub = callee.Params[i]
+		}
+	}
+	if sub == nil {
+		return false, false
+	}
+	isLinkLoad := func(x ssa.Value) bool {
+		p, path, ok := fxParamField(x)
+		return ok && p == sub && path == "Link"
+	}
+	as := &fxAssume{
+		relevant: func(c ssa.Value) bool { return mentionsValue(c, isLinkLoad, 0) },
+	}
+	as.decide = func(c ssa.Value) (bool, bool) {
+		if x, tnn, ok := ir.NilTest(c); ok && isLinkLoad(x) {
+			return tnn != wantNil, true
+		}
+		return rootLinkPredicate(c, sub, wantNil, depth+1)
+	}
+	reach := as.reach(callee.Blocks[0])
+	if len(as.open(reach)) > 0 {
+		return false, false
+	}
+	truth, n := false, 0
+	for b := range reach {
+		for _, ins := range b.Instrs {
+			switch x := ins.(type) {
+			case *ssa.Store, *ssa.Go, *ssa.Defer, *ssa.MapUpdate, *ssa.Send:
+				return false, false
+			case *ssa.Call:
+				if _, known := rootLinkPredicate(x, sub, wantNil, depth+1); !known {
+					return false, false
+				}
+			case *ssa.Return:
+				if len(x.Results) != 1 {
+					return false, false
+				}
+				t, known := as.eval(x.Results[0])
+				if !known || (n > 0 && t != truth) {
+					return false, false
+				}
+				truth = t
+				n++
+			}
+		}
+	}
+	return truth, n > 0
 }
 
 func checkLoadMastRoot(c *Ctx, fn *ssa.Function, recv *ssa.Parameter, sts []fxFieldStore) {
@@ -564,7 +632,16 @@ func (f *ctorFlow) classifyDepth(v ssa.Value, depth int) string {
 					continue
 				}
 				n++
-				if k := f.classifyDepth(r.Results[idx], depth+1); k != "nonnil" {
+				k := f.classifyDepth(r.Results[idx], depth+1)
+				if strings.HasPrefix(k, "maybe:") {
+					// early return under the non-nil side of a nil test of that same value
+					// (`if cfg.F != nil { return cfg.F }`)
+					sym := strings.TrimPrefix(k, "maybe:")
+					if blockHasNil(r.Block(), func(y ssa.Value) bool { return f.sym(y) == sym }, false) {
+						k = "nonnil"
+					}
+				}
+				if k != "nonnil" {
 					worst = k
 				}
 			}
